@@ -592,7 +592,7 @@ namespace occa {
       }
 
       const char *cStart = c;
-      lex::skipTo(c, '/');
+      lex::skipTo(c, '/', '\\');
       std::string nextKey(cStart, c - cStart);
       if (*c == '/') {
         ++c;
